@@ -14,7 +14,10 @@ exprs = ["@", "a", "a.b", "a[0]", "a[*].b", "length(a)", "keys(@)", "a || b", "`
 inputs = ["{\"a\": [{\"b\": 2}, {\"b\": 1}], \"b\": {\"x\": \"y\"}}", "{\"a\": \"string value\", \"b\": null}", "{\"a\": -3}", "[1, 2, 3]", "\"just a string\"",
           "null", "{\"s\": \"é😀\\\"\\\\\\n\", \"n\": 1.5, \"big\": 18446744073709551615, \"neg\": -9223372036854775808, \"f\": 1e300}",
           "{\"a\": [\"x\", \"y\"], \"a\": [\"dup\", \"keys\"]}", "{\"a\": [[1, [2]], [3]]}", "  {\"a\" : { \"b\" : [ ] } }  ", "{\"a\": 1e400}",
-          "{a: 1}", "", "{\"a\": ", "[1, 2,]", "nul", "{\"a\": \"\\ud800\"}", "12 34", "{\"it's\": 7, \"a`b\": 8, \"a\": {\"b\": \"x\"}}"]
+          "{a: 1}", "", "{\"a\": ", "[1, 2,]", "nul", "{\"a\": \"\\ud800\"}", "12 34", "{\"it's\": 7, \"a`b\": 8, \"a\": {\"b\": \"x\"}}",
+          # DEL and the C1 controls (U+007F..U+009F) in string values and keys, raw and as \\u escapes: JSON prints them as they are
+          "{\"s\": \"a\u007fb\", \"a\": \"\u0080x\u009f\", \"b\": {\"p\u009fq\": 1, \"\u007f\": [\"\u0085\", \"\u0090\"]}}",
+          "{\"a\": \"a\\u007fb\\u0080\\u009f\", \"s\": \"\\u0085\", \"b\": {\"k\\u009f\": \"\\u007f\"}}"]
 # failing compiles of long one-line expressions with multi-byte characters at every alignment around the error position
 exprs += ['"' + "\u2603" * k + '" ||| b' for k in range(30, 42)] + ["foo ||| '" + "\u00e9" * k + "'" for k in range(30, 42)] + \
          ["'" + "\U0001F600" * k + "' | a[" for k in (16, 17, 18, 19, 20, 40)] + ["a." * 40 + "b", "a." * 40 + ".b", "length(k)", "k"]
